@@ -341,6 +341,8 @@ def run(ctx):
     core.run_sharded(ctx, __name__, "shard", 8 if ctx.tier == "quick" else 16)
     cross_process(ctx, 60 if ctx.tier == "quick" else 400, [1, 2] if ctx.tier == "quick" else [1, 2, 3, 4, 5, 6, 7, 8, 9, 10])
     history_independence(ctx, 150 if ctx.tier == "quick" else 2000)
+    if ctx.tier == "thorough":
+        core.run_fuzz(ctx, 60000)
 
 
 def replay(ctx, case):
